@@ -30,6 +30,25 @@ HALT_EVENT = {"WorkflowTimeoutError": "WorkflowTimedOutEvent", "WorkflowCancelle
 EVENTS = "workflows.events"
 
 
+def _enclosing_iter(node: ast.AST) -> ast.AST:
+    from ..index import ancestors
+    for a in ancestors(node):
+        if isinstance(a, (ast.For, ast.AsyncFor)):
+            return a.iter
+    return ast.Constant(value=None)
+
+
+def _outermost_scan(i: ast.If) -> ast.AST:
+    """the statement that scans the result: the If itself, or the For over tick_result.result that contains it"""
+    from ..index import ancestors
+    for a in ancestors(i):
+        if isinstance(a, (ast.For, ast.AsyncFor)) and "tick_result" in ast.unparse(a.iter):
+            return a
+        if isinstance(a, (ast.FunctionDef, ast.AsyncFunctionDef)):
+            break
+    return i
+
+
 def _publishes_before(fn: ast.AST, cfg: CFG, exit_call: ast.Call):
     """The CommandPublishEvent constructions that precede `exit_call` in its command list on every path."""
     pos = list_position(exit_call)
@@ -57,6 +76,8 @@ def _publishes_before(fn: ast.AST, cfg: CFG, exit_call: ast.Call):
 
 def run(chk) -> None:
     repo = chk.repo
+    from ._engine import engine_view
+    chk.extra["helpers_inlined"] = engine_view(repo)
     m = repo.module(CL)
 
     # ---------------------------------------------------------------- R1 terminal pairing
@@ -158,14 +179,24 @@ def run(chk) -> None:
         heads = cfgt.nodes_of(lp)
         for n in pcs:
             tgt = n.ast.targets[0].id if isinstance(n.ast, ast.Assign) and isinstance(n.ast.targets[0], ast.Name) else None
-            tests = [t for t in cfgt.nodes if t.kind == "test" and tgt and (f"{tgt}", True) in {(a, p) for a, p in __import__("sa.astx", fromlist=["atoms"]).atoms(t.ast.test, False)} or
-                     (t.kind == "test" and tgt and " ".join(ast.unparse(t.ast.test).split()) == f"{tgt} is not None")]
+            # tests of "the command produced a result": `<x> is not None` where x is (a copy of) the value returned by process_command
+            def is_result_name(e: ast.AST, at: ast.AST) -> bool:
+                x = expand(e, at, depth=3)
+                return tgt is not None and isinstance(x, ast.Name) and x.id == tgt
+
+            tests = []
+            for t in cfgt.nodes:
+                if t.kind != "test":
+                    continue
+                tt = t.ast.test
+                if isinstance(tt, ast.Compare) and len(tt.ops) == 1 and isinstance(tt.ops[0], ast.IsNot) and isinstance(tt.comparators[0], ast.Constant) and tt.comparators[0].value is None and is_result_name(tt.left, t.ast):
+                    tests.append(t)
             # from the command execution, the next iteration is reachable only through the F edge of `result is not None`
             nxt = cfgt.reach([n], blocked_edges=[(t, "F") for t in tests], labels_excluded=("exc", "cancel"), include_starts=False)
             ok = bool(tests) and not any(h in nxt for h in heads)
             chk.ob("C04.R3", "the runner stops executing commands at the first one that yields a result", ok, m=mr, node=n.ast, fn=pt, instance="process-tick:first-exit",
                    reason="the loop can continue after process_command returned a StopEvent")
-            rets = [t for t in tests for lab, s in cfgt.succ[t] if lab == "T" and isinstance(s.ast, ast.Return) and s.ast.value is not None and ast.unparse(s.ast.value) == tgt]
+            rets = [t for t in tests for lab, s_ in cfgt.succ[t] if lab == "T" and isinstance(s_.ast, ast.Return) and s_.ast.value is not None and is_result_name(s_.ast.value, s_.ast)]
             chk.ob("C04.R3", "that result is returned to run()", bool(rets), m=mr, node=n.ast, fn=pt, instance="process-tick:returns-result", reason="no `return result` on the non-None branch")
     _, pc = repo.func(f"{RUNNER}.process_command")
     cmd = param(pc, 1)
@@ -229,14 +260,15 @@ def run(chk) -> None:
     appends = [n for n in cfgr.nodes if n.ast is not None and any(isinstance(x, ast.Call) and (call_name(x) or "") == "self.tick_buffer.append" and x.args and ast.unparse(x.args[0]) == "tick_result" for x in exprs_in_node(n))]
     chk.floor("C04.R6", "sites buffering a worker result tick", len(appends), 1)
     for n in appends:
-        scans = [f for f in walk_shallow(rn) if isinstance(f, ast.For) and ast.unparse(f.iter).startswith("tick_result.result")]
+        # a test that recognises "this worker result carries a StopEvent" and awaits cleanup_tasks under it, on every path to the append
         good = False
-        for f in scans:
-            has = any(isinstance(i, ast.If) and "StopEvent" in ast.unparse(i.test) and "StepWorkerResult" in ast.unparse(i.test)
-                      and any(isinstance(x, ast.Await) and (call_name(x.value) or "").endswith("cleanup_tasks") for x in ast.walk(i)) for i in ast.walk(f))
-            fn_nodes = cfgr.nodes_of(f)
-            dom = fn_nodes and n not in cfgr.reach([cfgr.entry], blocked=fn_nodes)
-            good = good or (has and bool(dom))
+        for i in ast.walk(rn):
+            if isinstance(i, ast.If) and "StopEvent" in ast.unparse(i.test) and "tick_result" in ast.unparse(expand(i.test, i, depth=2)) + ast.unparse(_enclosing_iter(i)):
+                if any(isinstance(x, ast.Await) and (call_name(x.value) or "").endswith("cleanup_tasks") for s_ in i.body for x in ast.walk(s_)):
+                    outer = _outermost_scan(i)
+                    on = cfgr.nodes_of(outer)
+                    dom = on and n not in cfgr.reach([cfgr.entry], blocked=on)
+                    good = good or bool(dom)
         chk.ob("C04.R6", "a worker result containing a StopEvent cancels the other workers before its tick is buffered", good, m=mr, node=n.ast, fn=rn, instance="stop-result:cleanup-first",
                reason="other workers may still publish after the StopEvent")
 
